@@ -44,6 +44,8 @@ def knobs(rng):
         e["text_factory"] = "utf8fn"
     if rng.random() < 0.15:
         e["default_encoding"] = rng.choice(["latin-1", "ascii", "UTF8"])
+    if rng.random() < 0.25:
+        e["prelude"] = True  # process reuse: see ops.run_prelude
     return e
 
 
